@@ -68,7 +68,10 @@ Q_ALPHABET = np.array([-1.0, 0.0, 5e-324, 1e-9, 1e-7, 1e-3, 0.5, 1.0, 10.0, 1e3,
 PZ_ALPHABET = np.array([-1.0, -1e-300, 0.0, 1e-3, 1.0, 10.0, 99.999, 100.0, 100.0 * (1 + 1e-9), 100.0001, 1e3, DBL_MAX])
 DENSITY = np.array([-1.0, 0.0, 1e-3, 1.0, 19.3])
 
-FORMULAS_OK = ["H2O", "Ca5(PO4)3F", "(H2O)2", "C6H12O6", "SiO2", "Pb", "U", "H0.5O", "Fe2O3", "Ca(OH)2", "NaCl", "Am", "Es"]
+FORMULAS_OK = ["H2O", "Ca5(PO4)3F", "(H2O)2", "C6H12O6", "SiO2", "Pb", "U", "H0.5O", "Fe2O3", "Ca(OH)2", "NaCl", "Am", "Es",
+               # parsable formulas in which an element WITHOUT cross-section data (Es, Fm; Pu for CS_Energy) is not the first (lightest) one: a compound sum that
+               # fails on a later element has already accumulated a partial sum
+               "EsO2", "FmCl3", "PuO2", "Ca(EsO2)2"]
 FORMULAS_BAD = ["", "Uu", "H2O)", "(H2O", "h2o", "H-2O", "0", "Rf", "Sg(CH3)4", "2H", "H2O ", "Cf(", "()", "H()", "H2..5", "\xff"]
 # two independent causes of rejection in one string (a second error must not be stored over the first), brackets balanced in number but not in order
 FORMULAS_BAD += ["RfDb", "H)(O"]
